@@ -219,6 +219,21 @@ impl Transaction {
         }
     }
 
+    /// The Proposition this transaction already staged for a tuple key.
+    ///
+    /// `ENSURE` has to see the transaction's own writes as well as the
+    /// store's: two clauses naming the same new tuple would otherwise both
+    /// mint, and the second row would hit the unique `tuple_key` index in the
+    /// middle of the commit, after other rows of the statement were written.
+    pub fn staged_proposition(&self, tuple_key: &str) -> Option<ElementId> {
+        self.staged
+            .iter()
+            .find_map(|(id, staged)| match &staged.row {
+                Element::Proposition(row) if row.tuple_key == tuple_key => Some(*id),
+                _ => None,
+            })
+    }
+
     /// Checks an `EXPECT STATE` guard against an Assertion's lifecycle status.
     ///
     /// Distinct from [`Self::expect_state`], which reads the *engine* state:
